@@ -150,6 +150,9 @@ class CSSCharsetRule(cssrule.CSSRule):
         else:
             try:
                 codecs.lookup(encoding)
+                # the sheet is written with it: must be a text encoding
+                # which takes an error handler (not rot13, idna, undefined)
+                'a'.encode(encoding, 'replace')
             except (LookupError, ValueError):
                 # (ValueError: names the codec registry does not even look
                 # up, e.g. with a NUL or a lone surrogate from an escape)
